@@ -16,8 +16,10 @@ type Lab struct {
 	Wire  string `json:"wire"` // "object" | "absent" (no arguments member) | "nonobject" (arguments is a JSON string)
 	// "sqlite" | "proxy" (queue backend memory in the config file: queue tools forward to the Admin API)
 	Backend string `json:"backend"`
-	Extra   bool   `json:"extra"`
-	Valid   bool   `json:"valid"`
+	// "all" | "nocfg" | "nopid" | "nodb": server started with an empty --config / --pid-file / --db
+	Conf  string `json:"conf"`
+	Extra bool   `json:"extra"`
+	Valid bool   `json:"valid"`
 }
 
 // Row is one abstract input: a row of the gating table plus an argument shape.
@@ -47,6 +49,7 @@ type Real struct {
 	Mode    string `json:"mode"`
 	Wire    string `json:"wire"`
 	Backend string `json:"backend"`
+	Conf    string `json:"conf"`
 	Extra   bool   `json:"extra"`
 }
 
